@@ -157,9 +157,9 @@ def finalExponentiation (inp : GFp12) : GFp12 :=
   let fp := t1.frobenius
   let fp2 := t1.frobeniusP2
   let fp3 := fp2.frobenius
-  let fu := t1.expGo (u : Int)
-  let fu2 := fu.expGo (u : Int)
-  let fu3 := fu2.expGo (u : Int)
+  let fu := t1.expLoop (u : Int)
+  let fu2 := fu.expLoop (u : Int)
+  let fu3 := fu2.expLoop (u : Int)
   let y3 := fu.frobenius
   let fu2p := fu2.frobenius
   let fu3p := fu3.frobenius
